@@ -352,6 +352,9 @@ class Interner:
 
 def canon_scalar(x, dtype):
     if dtype in INTS:
+        bits = int(dtype.lstrip('uint'))
+        lo, hi = (0, 2 ** bits - 1) if dtype.startswith('u') else (-(2 ** (bits - 1)), 2 ** (bits - 1) - 1)
+        assert lo <= int(x) <= hi, f'{x} is not a {dtype}'       # = C03_Typed.scalar_ok: the theorems' domain
         return ['VInt', int(x)]
     if dtype == 'float32':
         return ['VFlt', struct.unpack('<I', struct.pack('<f', float(x)))[0]]
